@@ -95,6 +95,7 @@ struct Reg {
       s.points = [c](int tier) {
         std::vector<int> vars = {0, 1}; if (c.tr) vars.push_back(3);
         std::vector<Pt> pts = grid(vars, tier ? 3 : 2, AXI_VALS);
+        pts.push_back(Pt(7.28125L, -9.09375L, 0, 6.21875L));  // far from the axis, negative z
         pts.push_back(Pt(dy(384), 0, 0, 0, true));  // z = 0, t = 0 (r = 0 is outside the domain of the 1/r terms)
         return pts;
       };
